@@ -5,7 +5,7 @@ FNS = ["reim_fft_simple", "reim_ifft_simple", "reim_fftvec_mul_simple", "reim_ff
 
 
 def _jobs(tier):
-    mult = 1 if tier == "quick" else 25
+    mult = 1 if tier == "quick" else 75
     jobs = []
     for fl in ("asan", "rel"):
         for i in range(8):
